@@ -76,6 +76,14 @@ def oracle_c08(rec):
                     out.append(("offered-weight-differs-from-written", inp, f"open pick over {len(c['bds'])} descriptors: descriptor #{i} ({b.generate_string(False)}, "
                                 f"position {b.descriptor_num}) is offered with weight {c['w'][i]} but was written with {next(iter(ws_))}", None))
                     break
+        if c.get("site") == "token" and c["bond"] is not None:
+            # hand-over to a plain token: the prefix's open descriptor is offered ALL descriptors of that token, as written
+            key = lambda b: (b.descriptor_num, b.generate_string(False), str(b.preceding_characters), float(b.weight))
+            offered = [key(b) for b in c["bds"]]
+            tokens = [[key(b) for b in el.bond_descriptors] for el in case.mol._elements if isinstance(el, SmilesToken)]
+            if tokens and offered not in tokens:
+                out.append(("handover-list-is-not-the-tokens-descriptor-list", inp, f"descriptors offered at a hand-over: {offered}; the plain tokens of the molecule carry {tokens}", None))
+                continue
         want_p = law([c["w"][i] for i in want_idx])
         if a != want_idx:
             out.append(("options", inp, f"{k} pick: options handed to the generator {a}, compatible descriptors {want_idx}", None))
